@@ -213,6 +213,12 @@ class ExprMixin:
         imp = m.imports.get(attr)
         if imp is not None:
             return self.resolve_import(imp)
+        for sm in getattr(m, 'star_imports', ()):
+            if self.prog.has_module(sm):
+                try:
+                    return self.module_attr(self.prog.module(sm), attr)
+                except BindError:
+                    continue
         raise BindError('%s has no attribute %s' % (m.name, attr))
 
     def const_to_v(self, c):
@@ -452,6 +458,16 @@ class ExprMixin:
 
     def get_item(self, base, idx):
         t = base.t
+        if is_py(base, 'kwdict') and idx.t is TStr:
+            # a dict display with literal text keys, indexed by a text value: one branch per key
+            if idx.py and idx.py[0] == 'strlit':
+                if idx.py[1] in base.py[1]:
+                    return base.py[1][idx.py[1]]
+                self.py_raise('KeyError')
+            for k, v in base.py[1].items():
+                if self.branch(eq(idx, mk_str_const(k))):
+                    return v
+            self.py_raise('KeyError')
         if isinstance(t, TOpt):
             self.need(z3.Not(t.is_none(base.z)), 'TypeError')
             return self.get_item(V(t.inner, t.val(base.z)), idx)
